@@ -141,6 +141,15 @@ def cli_case(ctx, k):
                     flank = M.rnd_seq(rng, rng.randint(0, 10), "ACGT")
                     s_ = core + flank if cfg["type"] == "prefix" else flank + core
                     recs.append((f"o{j}_{i}", s_, "I" * len(s_)))
+                # a copy with N where the adapter has an A, directly followed by the clean copy (a lookup structure that
+                # remembers results must not let the first read colour the second)
+                apos = [p_ for p_, ch in enumerate(oseq) if ch == "A"]
+                if apos:
+                    p_ = rng.choice(apos)
+                    flank = M.rnd_seq(rng, rng.randint(2, 8), "ACGT")
+                    for tag_, core in (("n", oseq[:p_] + "N" + oseq[p_ + 1:]), ("c", oseq)):
+                        s_ = core + flank if cfg["type"] == "prefix" else flank + core
+                        recs.append((f"o{j}_{tag_}", s_, "I" * len(s_)))
             inputs = climon.write_inputs(d, recs)
             ctx.count("cli_runs_with_several_anchored_adapters")
         if not cfg["aw"]:
@@ -175,7 +184,7 @@ def cli_case(ctx, k):
                     ctx.case(("cli-other", str(argv), read))
                     n = len(read)
                     ok_place = (r0 == 0) if cfg["type"] == "prefix" else (r1 == n)
-                    dist = R.edit_distance(oseq, read[r0:r1], R.make_eq(False, False)) if cfg["indels"] else (R.hamming(oseq, read[r0:r1], R.make_eq(False, False)) if len(oseq) == r1 - r0 else None)
+                    dist = R.edit_distance(oseq, read[r0:r1], R.make_eq(False, cfg["rw"])) if cfg["indels"] else (R.hamming(oseq, read[r0:r1], R.make_eq(False, cfg["rw"])) if len(oseq) == r1 - r0 else None)
                     if not (0 <= r0 <= r1 <= n) or not ok_place or dist != err or err > orate * len(oseq):
                         ctx.violation("cli-row-unexplained", f"info row for adapter {col[7]} ({oseq}, e={orate}): errors={err} start={r0} end={r1} on read {read!r}; "
                                       f"distance of the full adapter to that stretch is {dist}, tolerance {orate * len(oseq):.2f}; argv={argv}", case, klass="other" + cfg["type"])
